@@ -207,6 +207,14 @@ def shard_core(arg):
                 except RSZeroError:
                     sh.hist["rszero"] += 1
                     continue
+                except Exception as e:
+                    sh.nt += 1
+                    sh.hist["fail:core"] += 1
+                    sh.violation("core", "core-sign-raises",
+                                 dict(rec=rec, d=d, k=k, digest=dg),
+                                 "signature or RSZeroError",
+                                 "%s: %s" % (type(e).__name__, e))
+                    continue
                 sh.nt += 1
                 try:
                     ok = vk.verify_digest(sig, dg, allow_truncate=True)
@@ -269,6 +277,9 @@ def core_case(rec, d, k, dg):
         sig = sk.sign_digest(dg, k=k, allow_truncate=True)
     except RSZeroError:
         return None
+    except Exception as e:
+        return ("core-sign-raises", "signature or RSZeroError",
+                "%s: %s" % (type(e).__name__, e))
     try:
         ok = sk.verifying_key.verify_digest(sig, dg, allow_truncate=True)
     except Exception as e:
